@@ -222,8 +222,8 @@ def run_property(build_mod: str, pid: str, argv=None) -> int:
             if ob["status"] == "failed":
                 errors.append((ob["name"], "vacuity", "precondition unsatisfiable"))
             continue
-        if ob["status"] == "discharged":
-            continue
+        if ob["status"] in ("discharged", "open"):
+            continue   # "open": the function could not be executed symbolically (reported once as undecided), nothing was decided
         rec = match_finding(known, ob["name"])
         if ob["status"] == "failed":
             if rec:
